@@ -35,7 +35,7 @@ def withH (st : St) (i : String) (f : Handle → St × String) : St × String :=
   | none => (st, "bad-op")
 
 def withT (st : St) (i : String) (f : Table → String) : St × String :=
-  withH st i fun h => match st.hp.tableOf h with
+  withH st i fun h => match st.hp.content h with
     | some t => (st, f t)
     | none => (st, "bad-op")
 
